@@ -26,7 +26,7 @@ RULE = (
 )
 ASSUMPTIONS = [
     "after a failed apply() only closure and serializability are demanded (the property's words); block geometry, addresses and zero-sized blocks are judged only when apply() returns",
-    "zero-sized blocks: only original blocks whose every byte the request set deleted may remain zero-sized (the documented cases of doc/Deletion.md are all of that form)",
+    "zero-sized blocks: only original blocks whose every byte the request set deleted may remain zero-sized (the documented cases of doc/Deletion.md are all of that form), and a block a patch brought that is the target of a branch or call while no code follows it in its byte interval (the patch's own label at the end of the section: the same 'incoming edges, nowhere to redirect them' case, for a new block)",
     "the aux-data tables validated are the sanctioned ones the canonical dump covers: alignment, comments, padding, symbolicExpressionSizes, cfiDirectives, functionBlocks/Entries/Names, encodings, types, profile, SCCs, peSafeExceptionHandlers, elfDynamicInit/Fini, elfSymbolInfo, plus module.entry_point",
 ]
 TRUSTED = ["harness/emodify.py, harness/irdump.py; gtirb's own protobuf serializer is the judge of serializability"]
@@ -213,7 +213,7 @@ def special_blocks(case, rng):
     for i in named:
         if i in touched or rng.random() < 0.3:
             continue
-        d = case["text"][i]
+        d = emodify.flat_of(case)[i]
         e = {"op": "delete", "block": i, "off": 0, "len": emodify.block_size(d)}
         if rng.random() < 0.3:
             e["proxy"] = True
